@@ -60,6 +60,11 @@ def isWord (w : CharSet) : Option Char → Bool
   | none => false
   | some c => w.mem c
 
+/-- may another (optional) iteration be attempted after `count` iterations? -/
+def canMore : Option Nat → Nat → Bool
+  | none, _ => true
+  | some h, count => count < h
+
 /-- sre's MAX_UNTIL loop.  `count` iterations done; `last` = position at
 which the previous *optional* iteration was started. -/
 def repLoop {R : Type} (body : St → (St → Option R) → Option R)
@@ -69,7 +74,7 @@ def repLoop {R : Type} (body : St → (St → Option R) → Option R)
   | fuel+1, count, last, s, k =>
     if count < lo then
       body s (fun s' => repLoop body lo hi fuel (count+1) last s' k)
-    else if (match hi with | none => true | some h => count < h) && last != some s.pos then
+    else if canMore hi count && last != some s.pos then
       match body s (fun s' => repLoop body lo hi fuel (count+1) (some s.pos) s' k) with
       | some r => some r
       | none => k s
